@@ -2037,7 +2037,7 @@ def _get_slice_Boolop_values(
 
         if ln == end_ln:  # if on same line as first element then delete everything from start of operator to start of element
             fst_._put_src(None, ln, col, end_ln, end_col, True)
-        elif (s := (l := fst_lines[ln])[:col] + l[end_col + len(sep):]) and not s.isspace():  # operator not only thing on line, just remove operator
+        elif (s := (l := fst_lines[ln])[:col] + l[col + len(sep):]) and not s.isspace():  # operator not only thing on line, just remove operator
             fst_._put_src(None, ln, col, ln, col + len(sep), True)
         else:  # operator only thing on the line (incuding comments and line continuations), nuke the whole line (we know there is a next line)
             fst_._put_src(None, ln, 0, ln + 1, 0, True)
